@@ -125,3 +125,23 @@ def specScale (minVar : Rat) (trees : List TreeOut) : Rat :=
   specAl minVar trees + sumL (trees.map (fun t => t.1 * t.1)) / (trees.length : Rat)
 
 end DH.Forest
+
+/-! ### float-tolerance checker used by the correspondence harness
+
+The implementation works in IEEE doubles; `E[m²] − mean²` cancels catastrophically for
+large means, so variances are compared with an absolute error relative to the second
+moment `specScale`, and the mean relative to the mean absolute tree prediction.  `tolV`
+and `tolM` are the (dimensionless) factors, supplied by the harness
+(`max(64, 2n+8)·ε` and `4·n·ε`). -/
+
+namespace DH.Forest
+
+def rabs (x : Rat) : Rat := if 0 ≤ x then x else -x
+
+/-- mean absolute tree prediction (scale of the summation error of the mean) -/
+def specAbsMean (trees : List TreeOut) : Rat :=
+  sumL (trees.map (fun t => rabs t.1)) / (trees.length : Rat)
+
+def closeTo (tol scale got want : Rat) : Bool := decide (rabs (got - want) ≤ tol * scale)
+
+end DH.Forest
